@@ -603,10 +603,25 @@ pub fn plus_operation<'a>(
       } => values.push((value + controller).into()),
       Type2::IntValue {
         value: controller, ..
-      } => values.push(((*value as isize + controller) as usize).into()),
+      } => {
+        // a negative sum is an nint, not a wrapped-around uint
+        let sum = *value as isize + controller;
+        if sum >= 0 {
+          values.push((sum as usize).into())
+        } else {
+          values.push(sum.into())
+        }
+      }
       Type2::FloatValue {
         value: controller, ..
-      } => values.push(((*value as isize + *controller as isize) as usize).into()),
+      } => {
+        let sum = *value as isize + *controller as isize;
+        if sum >= 0 {
+          values.push((sum as usize).into())
+        } else {
+          values.push(sum.into())
+        }
+      }
       Type2::Typename { ident, .. } => {
         let nv = numeric_values_from_ident(cddl, ident);
         if nv.is_empty() {
